@@ -672,6 +672,27 @@ func (env *SpecEnv) evalCall(n ECall) specVal {
 		v0 := Select(env.curHeapGet(vals[0].name, vals[0].sort), m.v.(Term))
 		q := fmt.Sprintf("(forall ((qk %s)) (! (=> (select %s qk) (not (= (select %s qk) 0))) :pattern ((select %s qk))))", ks, d.S, v0.S, v0.S)
 		return specVal{Term{q, SBool}, boolT}
+	case "mapvals_inv":
+		// every value stored in the map (of pointer type) is non-nil and satisfies its type invariant
+		m := env.eval(n.Args[0])
+		mt, ok := under(m.t).(*types.Map)
+		if !ok {
+			sfail("mapvals_inv needs a map")
+		}
+		dom, _, vals := env.e.mapHeaps(mt)
+		ks := env.e.keySort(mt.Key())
+		d := Select(env.curHeapGet(dom.name, dom.sort), m.v.(Term))
+		qk := Term{"qk", ks}
+		var ts []Term
+		for _, vh := range vals {
+			ts = append(ts, Select(Select(env.curHeapGet(vh.name, vh.sort), m.v.(Term)), qk))
+		}
+		pv, _ := fromTerms(ts, mt.Elem())
+		sub := env.clone()
+		sub.vars["$mapval"] = specVal{pv, mt.Elem()}
+		inv := sub.evalTypeInv(ECall{Fn: "inv", Args: []Expr{EIdent{"$mapval"}}})
+		q := fmt.Sprintf("(forall ((qk %s)) (! (=> (select %s qk) (and (not (= %s 0)) %s)) :pattern ((select %s qk))))", ks, d.S, ts[0].S, inv.v.(Term).S, d.S)
+		return specVal{Term{q, SBool}, boolT}
 	case "ifaceval":
 		// ifaceval(i): the value boxed in interface i (for single-word boxed values)
 		x := env.eval(n.Args[0])
@@ -744,6 +765,18 @@ func (env *SpecEnv) evalCall(n ECall) specVal {
 			case "[]byte", "seq":
 				s := env.toSeq(env.eval(a))
 				args = append(args, s.Data, s.Off, s.Len)
+			case "iface":
+				// an interface (or type-parameter typed) value: dynamic type tag and boxed value
+				switch v := env.eval(a).v.(type) {
+				case VIface:
+					args = append(args, v.Tag, v.Val)
+				case Term:
+					args = append(args, TZero, v)
+				case VPtr:
+					args = append(args, v.Ref, v.Idx)
+				default:
+					sfail("spec function %s: argument %d is not an interface value (%T)", n.Fn, i, v)
+				}
 			default:
 				sfail("spec function %s: unsupported parameter type %s", n.Fn, sf.Params[i].Type)
 			}
@@ -834,6 +867,8 @@ func (e *Engine) specPrelude(formula string) string {
 					sorts = append(sorts, "Int")
 				case "bool":
 					sorts = append(sorts, "Bool")
+				case "iface":
+					sorts = append(sorts, "Int", "Int")
 				default:
 					sorts = append(sorts, "(Array Int Int)", "Int", "Int")
 				}
